@@ -24,6 +24,11 @@ From CG Require Import Spec.ScriptRead.
 From CG Require Import Model.Dot.
 From CG Require Import Spec.DotRead.
 From CG Require Import Spec.DotSpec.
+From CG Require Import Model.Glob.
+From CG Require Import Model.BashSem.
+From CG Require Import Model.ChainTables.
+From CG Require Import Model.C17Witness.
+From CG Require Import Spec.Invocations.
 From CG Require Import Spec.Mistakes.
 From CG Require Import Spec.Warnings.
 From CG Require Import Model.Minimize.
@@ -100,6 +105,22 @@ Separate Extraction
   DotSpec.compare
   DotSpec.gdiff_ok
   DotSpec.regex_missing
+  Glob.glob_match
+  Glob.printf_q
+  Glob.rm_longest_prefix
+  Glob.rm_shortest_prefix
+  Glob.rm_shortest_suffix
+  BashSem.run_from
+  BashSem.run
+  BashSem.subword_matches
+  BashSem.subword_complete
+  BashSem.filter_lines
+  BashSem.sort_desc
+  BashSem.assoc_of
+  ChainTables.chain_alltables
+  C17Witness.w1
+  C17Witness.w2
+  Invocations.spec_run
   Mistakes.present
   Mistakes.specs_have_command_plain
   Warnings.unused_plain
